@@ -285,8 +285,9 @@ func checkMatchStyleAll(s *Segment) (bind string, capture int, ok bool) {
 		return "**", 0, true
 	}
 
-	// Check for "{<BindIdent>: **}"
-	if len(s.Elements) == 0 ||
+	// Check for "{<BindIdent>: **}", which must be the whole segment: literals or
+	// further bind parameters next to it would be ignored by the match.
+	if len(s.Elements) != 1 ||
 		s.Elements[0].BindParameters == nil ||
 		len(s.Elements[0].BindParameters.Parameters) == 0 ||
 		s.Elements[0].BindParameters.Parameters[0].Value.Literal == nil ||
